@@ -220,6 +220,12 @@ func c14Build(e *Env, sweep bool, w *cnWorld) *cnWorld {
 	mux := diam.NewServeMux()
 	mux.HandleFunc("ALL", w.handler)
 	var h diam.Handler = mux
+	if !sweep && t.Chance(1, 3) {
+		// an earlier error report (of some other connection on this mux) that nobody has collected
+		mux.Error(&diam.ErrorReport{Error: fmt.Errorf("sim: an earlier report nobody collected")})
+		e.Act("error-report-slot-occupied", "")
+		e.Probe("error-report-slot-occupied")
+	}
 	if t.Chance(1, 3) {
 		// an application handler that also implements ErrorReporter and asks for
 		// CloseNotify when it is told about a connection error
